@@ -314,3 +314,14 @@ def run_linesearch(c):
             r["feasible"] = bool(step > 0 and np.all(p >= l - 0 * p) and np.all(p <= u))
         out.append(r)
     return dict(runs=out)
+
+
+@register("hessdiag")
+def run_hessdiag(c):
+    from scipy.optimize import LbfgsInvHessProduct
+    from lbfgsb import extract_hess_inv_diag
+    sk, yk = np.array(c["S"], dtype=float), np.array(c["Y"], dtype=float)
+    H = LbfgsInvHessProduct(sk, yk)
+    d = np.asarray(extract_hess_inv_diag(H), dtype=float)
+    dd = np.diag(H.todense())
+    return dict(diag=d.tolist(), dense_diag=dd.tolist(), shape_ok=bool(d.shape == (c["n"],)))
